@@ -80,6 +80,24 @@ ITEMS = [
                   '(*self is Nil || *self is False) ==> r == Some(false)',
                   '!(*self is Unknown || *self is Nil || *self is False) ==> r == Some(true)'],
          desc='truthiness: Unknown -> None; nil,false -> Some(false); every other value (any number, any string, table, function, true) -> Some(true)'),
+    dict(file='src/process/evaluator/lua_value.rs', kind='fn', impl='LuaValue', name='map_if_truthy', props=['C08'],
+         requires=['forall|x: Self| map.requires((x,))'],
+         ensures=['self is Unknown ==> r is Unknown',
+                  '(self is Nil || self is False) ==> r == self',
+                  '!(self is Unknown || self is Nil || self is False) ==> map.ensures((self,), r)'],
+         desc='`a and b` folding for EVERY value and EVERY closure: Unknown stays Unknown; a falsy value is returned unchanged; a truthy value is mapped by exactly one call of the closure'),
+    dict(file='src/process/evaluator/lua_value.rs', kind='fn', impl='LuaValue', name='map_if_truthy_else', props=['C08'],
+         requires=['forall|x: Self| map.requires((x,))', 'default.requires(())'],
+         ensures=['self is Unknown ==> r is Unknown',
+                  '(self is Nil || self is False) ==> default.ensures((), r)',
+                  '!(self is Unknown || self is Nil || self is False) ==> map.ensures((self,), r)'],
+         desc='`a or b` folding for EVERY value and EVERY pair of closures: Unknown stays Unknown; truthy -> map(self); falsy -> default()'),
+    dict(file='src/generator/utils.rs', kind='fn', name='needs_escaping', props=['C13', 'C14'],
+         ensures=['must_escape_in_quotes(character) ==> r'],
+         desc='for ALL 256 bytes: backslash, newline, carriage return and every byte >= 0x80 need an escape in a quoted literal'),
+    dict(file='src/generator/utils.rs', kind='fn', name='needs_quoted_string', props=['C13', 'C14'],
+         ensures=['*character == 0x0Du8 ==> r'],
+         desc='for ALL 256 bytes: a carriage return can not be written raw inside a long bracket'),
     dict(file='src/process/evaluator/mod.rs', kind='fn', impl='Evaluator', name='maybe_metatable', props=['C08'],
          ensures=['*value is Unknown ==> r'],
          desc='an Unknown value may carry a metatable, in either evaluator mode'),
@@ -107,6 +125,11 @@ def _split_fn(src, it):
 
 
 def _name_return(header):
+    # a `where` clause stays behind the (renamed) return type
+    mw = re.search(r'\bwhere\b', header)
+    if mw:
+        head, ret = _name_return(header[:mw.start()].rstrip())
+        return head + '\n' + header[mw.start():].rstrip().rstrip(',') + ',', ret
     # last `->` outside brackets
     depth, idx = 0, -1
     for i, ch in enumerate(header):
@@ -160,8 +183,10 @@ def build(repo, out_path):
             attrs, header, body = _split_fn(src, it)
             header2, ret = _name_return(header)
             ens = ''
+            if spec.get('requires'):
+                ens += '\n    requires\n' + ''.join('        %s,\n' % e for e in spec['requires'])
             if spec.get('ensures'):
-                ens = '\n    ensures\n' + ''.join('        %s,\n' % e for e in spec['ensures'])
+                ens += '\n    ensures\n' + ''.join('        %s,\n' % e for e in spec['ensures'])
             if spec.get('external_body'):
                 piece = '// signature from %s (body not extracted: rejected by Verus)\n#[verifier::external_body]\n%s%s{ unimplemented!() }\n' % (
                     spec['file'], header2, ens)
